@@ -159,7 +159,12 @@ func (k Keeper) createEthBlockProposal(sdkctx sdk.Context, keyProvider cryptotyp
 	}
 
 	txBuilder := txConfig.NewTxBuilder()
-	txBuilder.SetGasLimit(1e8)
+	// No fee is paid and nothing verifies this limit, but FinalizeBlock meters the handler with it.
+	// What the handler needs grows with the payload (30 gas per stored byte) and with the square of
+	// the number of unlock requests that share a queue entry: 1e8 was used up by an execution block
+	// of 3 MB or by about 330 unlock requests, both well within one block of the engine, whose own
+	// gas limit bounds the work. The proposal is verified without a limit and applied without one.
+	txBuilder.SetGasLimit(1<<63 - 1)
 	txBuilder.SetTimeoutHeight(uint64(rpp.Height))
 
 	payload := types.ExecutableDataToPayload(envelope.ExecutionPayload, beaconBlock, envelope.Requests)
